@@ -118,7 +118,7 @@ CHECKS = {
     category='exploration',
     text='Stops are delivered before the run loop, between instructions, inside delays, inside time-of-day waits and as the script finishes, under generated and (thorough) enumerated single preemptions; each run is checked for promptness in virtual time, at most one further command, the fate of the next / queued / re-queued job, and for deadlock or a lost stop (step limit).',
     design='DESIGN.md sections 2.6 and 3, C09',
-    note='"Promptly" is bounded liveness (two ticks + command in progress, step budget). One open finding is recorded and excluded by construction: a stop that arrives before the job thread has entered the run loop is lost.'),
+    note='"Promptly" is bounded liveness (two ticks + command in progress, step budget). The lost-stop-before-run-loop finding is repaired; stops are delivered in every state including before the run loop.'),
  'C10': dict(
     technique='discrete-event oracle in virtual time over the real Machine / Clock / JobControl on the deterministic scheduler: Hypothesis-generated delay / work / time-of-day sequences, tick lengths, wall-clock starts and clock-vs-script preemptions',
     category='exploration',
